@@ -18,7 +18,7 @@ _POOL = {
     'engine': 'cbmc', 'shims': ['moodycamel', '../harness/C04/shim'], 'exceptions': True,
     'repo_sources': ['dispenso/detail/per_thread_info.cpp', 'dispenso/task_set.cpp'],
     'spin_loops': True, 'checks': ['--no-standard-checks', '--div-by-zero-check', '--bounds-check'],
-    'timeout': int(__import__('os').environ.get('DEV_TIMEOUT', 1500)), 'must_reach': 'all',
+    'timeout': 1500, 'must_reach': 'all',
 }
 _SHAPES = {0: 'schedule(f)', 1: 'schedule(f, ForceQueuingTag)', 2: 'scheduleBulk(2, gen)', 3: 'scheduleBulk(2, gen, ForceQueuingTag)'}
 
@@ -50,4 +50,7 @@ def exc(setk, pool, cost=1, mask=15, nwait=1, wsteps=1, ctx=1, tiers=('thorough'
 _Q = ('quick', 'thorough')
 INSTANCES = [
     exc(1, 1, cost=1, mask=3, tiers=_Q),
+    # thorough tier (defined, not run in this round): other set kind / pool sizes / bulk shapes / two completion calls
+    exc(0, 1, mask=3), exc(1, 1, cost=0, mask=3), exc(1, 2, cost=1, mask=12), exc(0, 2, mask=12), exc(1, 2, cost=0, mask=12),
+    exc(0, 0, mask=15), exc(1, 0, cost=1, mask=15), exc(1, 1, cost=1, mask=3, nwait=2), exc(0, 1, mask=15, nwait=2),
 ]
